@@ -28,7 +28,7 @@ ASSUMPTIONS = [
     "included files carry no include keys themselves (re-inclusion semantics are not stated by the property)",
     "the format layer (C04) is trusted to write the files the harness prepares",
 ]
-REQUIRED = ["mode:merge", "mode:load", "mode:missing", "scope:root", "scope:nested", "scope:deep", "chain", "path:relative",
+REQUIRED = ["cwd-decoy", "mode:merge", "mode:load", "mode:missing", "scope:root", "scope:nested", "scope:deep", "chain", "path:relative",
             "path:absolute", "conflict:map-vs-scalar"] + ["fmt:" + f for f in trees.FORMATS]
 LEVEL_TEXT = (
     "Generated tree pairs/chains and real include files with a 10-line reference merge and a metamorphic "
@@ -218,6 +218,15 @@ def run_case(case, R):
                       "outside-startdir": "../../definitely/not/there.cfg", "empty-dir-name": "more/subdir"}[what]
             node["include"] = target
             doc = formatter.dumps(dummy, base)
+            decoy = None
+            if what in ("missing", "directory"):
+                # the same relative name exists as a proper file in the working directory: still not a valid include
+                decoy = os.path.join(os.getcwd(), "nope.cfg" if what == "missing" else "more")
+                if not os.path.exists(decoy):
+                    with open(decoy, "wb") as fp:
+                        fp.write(formatter.dumps(dummy, {"decoy-from-cwd": True}))
+                else:
+                    decoy = None
             cfg = schema()
             prestate(cfg)
             before = _snap(cc, cfg)
@@ -229,9 +238,12 @@ def run_case(case, R):
             R.check(tree_eq(_snap(cc, cfg), before), "must-exist", "unchanged:" + what, lambda: "the failed load changed the configuration: %s" % tree_diff(before, _snap(cc, cfg)))
             if spath:
                 R.nontrivial = True
+            if decoy:
+                os.unlink(decoy)
             return
 
         # -- load with includes ------------------------------------------------------------------
+        decoys = []
         base = _strip_inc(copy.deepcopy(case["base"]))
         expected = copy.deepcopy(base)
         used = set()
@@ -258,6 +270,14 @@ def run_case(case, R):
             R.label("path:" + ("absolute" if how == "absolute" else "relative"))
             with open(full, "wb") as fp:
                 fp.write(formatter.dumps(dummy, tree))
+            if how != "absolute":
+                # a file of the same relative name in the process working directory must play no role
+                decoy = os.path.join(os.getcwd(), ref)
+                os.makedirs(os.path.dirname(decoy), exist_ok=True)
+                with open(decoy, "wb") as fp:
+                    fp.write(formatter.dumps(dummy, {"decoy-from-cwd": True, "a": "decoy"}))
+                decoys.append(decoy)
+                R.label("cwd-decoy")
             _ensure_scope(base, spath)[key] = ref
             _ensure_scope(expected, spath)[key] = ref
             R.label("scope:" + inc["scope"])
@@ -316,3 +336,8 @@ def run_case(case, R):
             R.label("conflict:map-vs-scalar")
         if any(t[0] for t in plan) or (dmax >= 2 and conf):
             R.nontrivial = True
+        for path in decoys:
+            try:
+                os.unlink(path)
+            except OSError:
+                pass
